@@ -54,7 +54,7 @@ def fn_map(gen_text):
     out = {}
     cur_impl, cur_fn, in_hint, cur_path = None, None, False, None
     impl_re = re.compile(r"^\s*impl(?:\s*<[^{]*?>)?\s+(?:[\w:<>,' ]+?\s+for\s+)?&?(?:'\w+\s+)?(\w+)")
-    fn_re = re.compile(r"^\s*(?:pub\s+)?(?:open\s+|closed\s+|uninterp\s+)?(?:broadcast\s+)?(?:proof\s+|spec\s+|exec\s+)?fn\s+(\w+)")
+    fn_re = re.compile(r"^\s*(?:#\[[^\]]*\]\s*)*(?:pub\s+)?(?:open\s+|closed\s+|uninterp\s+)?(?:broadcast\s+)?(?:proof\s+|spec\s+|exec\s+)?fn\s+(\w+)")
     for i, line in enumerate(gen_text.split("\n"), 1):
         st = line.strip()
         if st.startswith("// >>> extracted from"):
